@@ -1,6 +1,6 @@
 //verif:package github.com/kstenerud/go-concise-encoding/cte
 //verif:config cap=300 maxsec=1800
-//verif:bounds all 7 format settings x the 8 integer array kinds; element value: all values for 8/16-bit kinds; 32-bit kinds for the binary, octal and hexadecimal settings in the quick tier; 64-bit kinds at the range edges (top byte symbolic, low bytes all-zero or all-one) for those settings in the quick tier; thorough adds 64-bit kinds with every bit symbolic for those settings and 32-bit decimal (symbolic division by powers of ten); one or two elements per array
+//verif:bounds all 7 format settings x the 8 integer array kinds; element value: all values for 8/16-bit kinds; 32-bit kinds for the binary, octal and hexadecimal settings in the quick tier; 64-bit kinds at the range edges (top byte symbolic, low bytes all-zero or all-one) for those settings in the quick tier; 64-bit kinds with every bit symbolic and 32-bit decimal (symbolic division by powers of ten) are not registered: single queries ran past every solver's 4-minute limit; one or two elements per array
 //verif:assume the association array header -> parse base (@u8b[ -> 2, @u8o[ -> 8, @u8x[ -> 16, @u8[ -> 0) is made by the grammar and listener dispatch (ANTLR, not executed): the harness applies the same mapping; float kinds (strconv float text) are outside reach
 package cte
 
@@ -79,9 +79,9 @@ func c25Elements(text []byte) []string {
 
 func Verif_C25_IntegerArrayFormats() {
 	fi := verifrt.Choice("format", len(c25Formats))
-	nk := 4 // quick: 8 and 16 bit kinds for every format
-	if verifrt.Thorough() {
-		nk = 6
+	nk := 4 // 8 and 16 bit kinds for every format
+	if verifrt.Thorough() && fi != 0 {
+		nk = 6 // thorough: also the 32-bit kinds for the power-of-two bases (32-bit decimal = symbolic division by powers of ten: single queries run past every solver's 4-minute limit)
 	}
 	ki := verifrt.Choice("kind", nk)
 	c25Check(fi, ki)
@@ -90,10 +90,7 @@ func Verif_C25_IntegerArrayFormats() {
 // 32/64-bit kinds with the shift-only bases (no division by powers of ten).
 func Verif_C25_WideKindsPowerOfTwoBases() {
 	fi := verifrt.Choice("format", 6) + 1
-	nk := 2 // quick: uint32, int32
-	if verifrt.Thorough() {
-		nk = 4 // thorough: also uint64, int64 (64 digit positions, each a chain of solver queries through strconv.ParseUint)
-	}
+	nk := 2 // uint32, int32 (64-bit kinds with every bit symbolic did not finish within the thorough budget; their range edges are in Int64Edges)
 	ki := verifrt.Choice("kind", nk) + 4
 	c25Check(fi, ki)
 }
